@@ -249,3 +249,92 @@ def clean_cost_oracle(ctx, hist, obs_list):
                                   {"step": j, "observation": obs, "frame": {"sync": fr[0], "soft_hex": R.soft_hex(fr[1]), "meta": meta}})
                     return False
     return True
+
+
+def crc_gate_probe(ctx, exe, rng, n_double=600, n_burst=600, n_lich=60, label="crc-gate"):
+    """The decoder's CRC gates (decode_lsf and the LICH reassembly), on link setup frames corrupted BEFORE encoding so that the
+    FEC delivers exactly the corrupted 30 bytes: every single-bit error, random double-bit errors, bursts of up to 16 bits, and
+    errors confined to the CRC field whose residue has a zero low / zero high byte.  All of these classes change the M17 CRC
+    (Properties_C09), so none may be reported; the uncorrupted frame must be.  Returns the number of frames fed."""
+    r = rng
+    g = fdgen.Gen(r)
+    A = fdgen.make_lsf(r, "voice")
+    pats = []                                   # (class, 30-byte xor pattern)
+    for i in range(240):
+        p = bytearray(30); p[i // 8] ^= 0x80 >> (i % 8); pats.append(("single", bytes(p)))
+    for _ in range(n_double):
+        i, j = r.below(240), r.below(240)
+        if i == j:
+            continue
+        p = bytearray(30); p[i // 8] ^= 0x80 >> (i % 8); p[j // 8] ^= 0x80 >> (j % 8); pats.append(("double", bytes(p)))
+    for d in range(1, 256):
+        pats.append(("crc-high-byte", bytes(28) + bytes([d, 0])))
+        pats.append(("crc-low-byte", bytes(28) + bytes([0, d])))
+    for _ in range(n_burst):
+        w = r.range(2, 16)
+        v = (1 << (w - 1)) | 1 | (r.below(1 << w))         # both ends set: a burst of exactly w bits
+        s0 = r.below(240 - w + 1)
+        x = v << (240 - s0 - w)
+        pats.append(("burst", x.to_bytes(30, "big")))
+    hist, exp = [], []
+    for k, (cls, p) in enumerate(pats):
+        bad = bytes(a ^ b for a, b in zip(A, p))
+        hist.append(g.lsf_frame(bad)); exp.append((cls, bad, False))
+        if k % 40 == 0:
+            hist.append(g.lsf_frame(A)); exp.append(("valid", A, True))
+    # the same through the LICH: six fragments of a corrupted LSF, then six of the valid one
+    lich_hists, lich_exp = [], []
+    for k in range(n_lich):
+        cls, p = pats[r.below(len(pats))]
+        bad = bytes(a ^ b for a, b in zip(A, p))
+        h = [g.stream_frame(bad, n, n, r.bytes(16)) for n in r.shuffle(range(6))]
+        h += [g.stream_frame(A, n, n, r.bytes(16)) for n in r.shuffle(range(6))]
+        lich_hists.append(h); lich_exp.append((cls, bad))
+    impl, lines, outl = run_impl(ctx, exe, [hist] + lich_hists)
+    if impl is None:
+        return 0
+    nfed = len(hist) + sum(len(h) for h in lich_hists)
+    for (cls, lsf, want), ob in zip(exp, impl[0]):
+        ctx.count(f"{label}-{cls}")
+        rep = [c for c in ob["cbs"] if c[0] == "LSF"]
+        if want and (ob["res"] != "OK" or not rep or rep[0][1] != lsf.hex()):
+            ctx.violation("lsf-gate-rejects-valid", "a valid link setup frame (CRC zero) is not reported by decode_lsf",
+                          {"lsf": lsf.hex(), "observation": ob})
+            return nfed
+        if not want and (ob["res"] == "OK" or rep):
+            ctx.violation("lsf-gate-accepts-bad-crc", "decode_lsf reports a link setup frame whose 30 bytes do not pass the M17 CRC "
+                          f"(error class: {cls})", {"lsf_sent": lsf.hex(), "crc_of_sent": "%04x" % R.crc16(lsf), "valid_lsf": A.hex(),
+                                                    "observation": ob})
+            return nfed
+    for (cls, bad), h, obs in zip(lich_exp, lich_hists, impl[1:]):
+        ctx.count(f"{label}-lich-{cls}")
+        for fi, ob in enumerate(obs[:6]):
+            rep = [c for c in ob["cbs"] if c[0] == "LSF"]
+            if rep:
+                ctx.violation("lich-gate-accepts-bad-crc", "the LICH reassembly reports a link setup frame whose 30 bytes do not pass the "
+                              f"M17 CRC (error class: {cls})", {"lsf_sent": bad.hex(), "crc_of_sent": "%04x" % R.crc16(bad),
+                                                                "reported": rep[0][1], "frame_index": fi})
+                return nfed
+        # the fragments of the valid LSF replace the corrupted ones slot by slot: it must be reported by the first frame after
+        # which all six held fragments are its own (ghost), and not before
+        held = [bad[5 * n:5 * n + 5] for n in range(6)]
+        due = None
+        for fi in range(6, 12):
+            n = h[fi][3]["n"]
+            held[n] = A[5 * n:5 * n + 5]
+            if due is None and all(held[k] == A[5 * k:5 * k + 5] for k in range(6)):
+                due = fi
+        for fi in range(6, 12):
+            rep = [c for c in obs[fi]["cbs"] if c[0] == "LSF"]
+            if fi < due and rep:
+                ctx.violation("lich-gate-accepts-bad-crc", "the LICH reassembly reports a link setup frame while a held fragment is "
+                              "still from the corrupted frame", {"lsf_sent": bad.hex(), "valid_lsf": A.hex(), "reported": rep[0][1],
+                                                                 "frame_index": fi})
+                return nfed
+            if fi == due and (not rep or rep[0][1] != A.hex()):
+                ctx.violation("lich-gate-rejects-valid", "fragments of a valid link setup frame replacing a corrupted one: not reported "
+                              "when the last differing fragment arrives", {"lsf": A.hex(), "corrupted": bad.hex(), "frame_index": fi,
+                                                                          "observation": obs[fi]})
+                return nfed
+    return nfed
+    return nfed
